@@ -547,10 +547,22 @@ func (w *MWorld) applyStack(op Op, self string, el ElemFn) []Alt {
 			return nil // destination with a push policy: not generated
 		}
 		if d.Opt["nnest"] {
+			skipped := false
 			for _, e := range m.Elems {
 				if e.IsStack {
-					return nil // no-nesting destination receiving stacks: not generated
+					skipped = true
 				}
+			}
+			if skipped {
+				// not everything can arrive: Transfer must not report success;
+				// whether the other elements are kept is unspecified
+				unchanged := w.clone()
+				for _, e := range m.Elems {
+					if !e.IsStack {
+						d.Elems = append(d.Elems, e)
+					}
+				}
+				return []Alt{{Rets: []string{"false"}, W: n}, {Rets: []string{"false"}, W: unchanged}}
 			}
 		}
 		d.Elems = append(d.Elems, m.Elems...)
